@@ -555,10 +555,10 @@ def gen_f6(rng, big=False):
         h = s.unit("U", "N", 1, ["w", "M%d:1" % u, "o"])
     else:
         # the second request is issued right after the callback has been let go: it lands while the handler finishes
-        # (around its clearing of the request bit) or just after; the unit sleeps before its next scheduling point, so
-        # an acknowledged request always has one left
-        s.units[u][3] = ["b%d!" % u, "M%d:0" % u, "Y", "Z", "Y", "Y", "Y"]
+        # (around its clearing of the request bit) or just after; the unit keeps away from its next scheduling point
+        # until the requester has finished, so an acknowledged request always has one left
         h = s.unit("U", "N", 1, ["w", "o", "M%d:1" % u])
+        s.units[u][3] = ["b%d!" % u, "M%d:0" % u, "Y", "Z%d" % h, "Y", "Y", "Y"]
     s.main += ["C%d" % u, "C%d" % h, "F%d" % h, "D%d" % u, "p%d" % u, "F%d" % u]
     return s.text()
 
